@@ -246,9 +246,12 @@ def bindings_ok(text):
     return bad
 
 
-LIB = {'c11lib.py': 'x = 1\ndef      spaced(): pass\nclass         Wide: pass\nvalue_far_right_____________ = x; target = 2\n'}
+SELF_A = 'import c11b\nc11b.foo; foo = 1\n'       # the edited file itself, reached again through c11b
+LIB = {'c11lib.py': 'x = 1\ndef      spaced(): pass\nclass         Wide: pass\nvalue_far_right_____________ = x; target = 2\n',
+       'c11a.py': SELF_A, 'c11b.py': 'from c11a import foo\n'}
 CROSS = ['import c11lib\nc11lib.spaced\nc11lib.Wide\nc11lib.target\n',
-         'from c11lib import spaced, Wide, target\nspaced\nWide\ntarget\n']
+         'from c11lib import spaced, Wide, target\nspaced\nWide\ntarget\n',
+         SELF_A]
 
 
 def materialise(path):
@@ -265,6 +268,17 @@ def cross_file_ok(text):
     from supp.assistant import location
     from supp.project import Project
     root = os.environ.get('VERIF_C11_ROOT', '')
+    if text == SELF_A:
+        # every reported position lies inside the named file and the text there is the identifier
+        bad = []
+        for col in (5, 6, 7, 8):
+            for x in location(Project([root]), text, (2, col), os.path.join(root, 'c11a.py')):
+                for y in (x if isinstance(x, list) else [x]):
+                    lines = LIB[os.path.basename(y['file'])].split('\n')
+                    l, c = y['loc']
+                    if not (1 <= l <= len(lines) and 0 <= c and lines[l - 1][c:c + 3] == 'foo'):
+                        bad.append('go-to-definition of c11b.foo (cursor column %d) reports %r in %s' % (col, y['loc'], os.path.basename(y['file'])))
+        return bad
     p = Project([root])
     lib = p.get_module('c11lib')
     decl = {}
